@@ -548,8 +548,8 @@ class DEVSSimulator(Simulator[TIME], Generic[TIME]):
         
     def schedule_event(self, event: SimEventInterface) -> SimEventInterface:
         """schedule the provided event on the event list"""
-        if event.time < self._simulator_time:
-            raise DSOLError("cannot schedule event in the past")
+        if not event.time >= self._simulator_time:
+            raise DSOLError("cannot schedule event in the past or at NaN")
         self._eventlist.add(event)
         return event
 
